@@ -199,6 +199,12 @@ Proof.
   assert (E3 : s * s = 1) by nra. apply Hne. nra.
 Qed.
 
+(* both spectral length scales are 2 pi over a wave number (the docstring's convention) *)
+Lemma ls_is_inverse_wave_number :
+  (forall x, x <> 0 -> ls_peak x * x = 2 * PI) /\
+  (forall S K, S <> 0 -> K <> 0 -> ls_mean S K * (K / S) = 2 * PI).
+Proof. unfold ls_peak, ls_mean. split; intros; field; auto. Qed.
+
 (* ================================================================== droplet_detection *)
 Definition prod_extents (bounds : list (R * R)) : R :=
   fold_right (fun b p => (snd b - fst b) * p) 1 bounds.
